@@ -65,8 +65,11 @@ V_ASSUME = ["go1.26.8 testing/synctest schedules the real library code faithfull
 
 
 def plan_C01(tier, seed, q):
-    return {"level": "exploration", "rule": E2E_RULE + "; oracle: reply == f(own args) byte for byte and handler saw exactly those args",
-            "jobs": e2e_jobs("C01", tier, seed, "mix", 420, 6000, race_t=600) + real_jobs("C01", tier, seed, "mix", 60, 600, race_t=120),
+    return {"level": "exploration", "rule": E2E_RULE + "; oracle: reply == f(own args) byte for byte and handler saw exactly those args; the same oracle "
+            "on profile 'errors' (~45% of the calls fail, incl. requests that cannot be encoded and take a little time to fail), where successful "
+            "calls share their connection with every kind of failing call",
+            "jobs": e2e_jobs("C01", tier, seed, "mix", 420, 6000, race_t=600) + e2e_jobs("C01", tier, seed + 3, "errors", 300, 4000)
+            + real_jobs("C01", tier, seed, "mix", 60, 600, race_t=120),
             "min_evaluations": 100, "min_distinct": 50, "assumptions": V_ASSUME}
 
 
